@@ -36,9 +36,9 @@ CONSTANTS Obj,          \* parser objects (strings)
 
 None == "none"
 
-(* Per-run accumulators of Parser that __init__ creates: the reported comments list, the stack of   *)
-(* open block comments, the pending (unterminated) statement.                                      *)
-Accs == {"comments", "block_comments", "statement"}
+(* Per-run state of Parser: the reported comments list, the stack of open block comments, the       *)
+(* pending (unterminated) statement, the inside-a-block-comment flag, the pending SET line.          *)
+Accs == {"comments", "block_comments", "statement", "multi_line_comment", "set_line"}
 ResetPerRun == "comments" \in ResetSet
 
 VARIABLES pc,        \* [Obj -> {"new","lexed","built","running"}]
